@@ -448,6 +448,10 @@ func main() {
 	e2e.AgentProcMain() // never returns in an agent process
 	logger.SetLogLevel(logger.FatalLevel)
 	c := vkit.Start("C18", "fault_enumeration")
+	if c.Child == "dd" {
+		ddChildMain(c)
+		c.Finish()
+	}
 	if c.Child != "" {
 		childMain(c)
 		c.Finish()
@@ -483,6 +487,9 @@ func main() {
 	for i := range combos {
 		specs = append(specs, vkit.ChildSpec{Mode: "run", Tag: fmt.Sprintf("c%04d", i), Timeout: 4 * time.Minute, Args: map[string]string{"idx": strconv.Itoa(i)}})
 	}
+	for i := range buildDDCombos(c) {
+		specs = append(specs, vkit.ChildSpec{Mode: "dd", Tag: fmt.Sprintf("dd%04d", i), Timeout: 4 * time.Minute, Args: map[string]string{"idx": strconv.Itoa(i)}})
+	}
 	for _, r := range c.RunChildren(specs, 6) {
 		if r.Partial != nil {
 			c.Merge(*r.Partial)
@@ -506,6 +513,9 @@ func main() {
 	c.JudgeRaces(anchors)
 	c.Require("stops_measured", 20)
 	c.Require("records_checked", 500)
+	c.Require("datadog_stops_measured", 10)
+	c.Require("datadog_stops_with_a_request_hanging", 2)
+	c.Require("datadog_recoveries_with_chunk_files", 4)
 	c.Finish()
 }
 
